@@ -50,7 +50,8 @@ def main():
         res.inconclusive.append(str(e))
     else:
         mod = importlib.import_module(f"rvmon.checks.{check.lower()}")
-        if getattr(mod, "FAILED_LOADS_FIRST", True) and (spec.get("shard", 0) if isinstance(spec.get("shard", 0), int) else 0) % 2 == 1:
+        import zlib
+        if getattr(mod, "FAILED_LOADS_FIRST", True) and zlib.crc32(json.dumps(spec, sort_keys=True, default=str).encode()) % 2 == 1:
             # Process history: in every second shard the application has already tried - and failed - to load a few things
             # (a missing file, garbage, a truncated file, a file with a broken nested container) before the workload starts.
             _failed_loads_first(res)
